@@ -172,6 +172,9 @@ type World struct {
 	StatusPageSize int
 	FleetSplit     int  // number of FleetInstances sets the answer is split into
 	FleetErrors    bool // CreateFleet answers with errors and no instances
+	// FleetShort: CreateFleet answers with this many instances fewer than asked for, together with an
+	// error entry (partly fulfilled).
+	FleetShort int
 	// ReadyStagger: every other fleet instance becomes ready one poll later than ReadyFromPoll.
 	ReadyStagger bool
 	// ReadyHalfNever: fleet instances with an odd sequence number never become ready.
